@@ -99,27 +99,46 @@ META["C14"] = {
     "level_text": "Shape contract NF(visit(q)) (no package, no projection out of one, no called "
     "lambda left) checked bounded on the real simplifier over ~260 type-correct packaging chains "
     "(tuple/list/dict, nested, three binder schemes); the helpers it is built from "
-    "(lambda_is_identity, is_call_of, function_call, …) are proved deductively. The inductive "
-    "NF proof of DESIGN §4 C14 was not discharged.",
+    "(lambda_is_identity, is_call_of, make_Select, convolute) and the literal projections that "
+    "compile packages away (visit_Subscript_Tuple/List/Dict, visit_Attribute on a dict: exact "
+    "element for a constant selector) are proved deductively, as is their shape safety through "
+    "visit_Subscript / visit_Attribute. The inductive NF proof of DESIGN §4 C14 was not discharged.",
     "level_note": "The property-carrying contract is bounded only (stated bound in evidence).",
     "technique": "contracts on the real functions: helper contracts discharged deductively (z3); NF shape contract of simplify_chained_calls checked bounded (labelled stand-in)",
     "p_keys": True,
+    "p_timeout": 900,
     "explanation": "Helper contracts proved; NF shape contract bounded.",
     "assumptions": ["chains are in function form (the simplifier only fuses function-form calls)"],
 }
 META["C18"] = {
     "level": "other",
-    "level_text": "Totality / well-formed-output contract of simplify_chained_calls checked bounded "
-    "on the real code: ~1200 queries incl. every literal x selector combination (constant, "
-    "out-of-range, negative, variable, slice, str, bool, None, float, absent key/attribute) in four "
-    "positions; result must unparse and compile; only FuncADLIndexError for a constant index >= "
-    "len; 5 s per input as the bounded termination check. Helper functions proved deductively.",
-    "level_note": "Termination is NOT proved (non-structural recursion, no variant known): bounded "
-    "observation only. Safety obligations of visit_Subscript_* are not yet under engine P.",
-    "technique": "contracts on the real functions: helper contracts discharged deductively (z3); totality/WF contract checked bounded (labelled stand-in)",
+    "level_text": "Partial-correctness induction over the real simplifier, discharged for all "
+    "inputs: with the class-level hypothesis `visit(n) on a well-formed node of query shape returns "
+    "a well-formed node of query shape and of the same kind, or raises FuncADLIndexError`, every "
+    "method of simplify_chained_calls that is within the engine's reach is proved to re-establish "
+    "it and to raise nothing else — visit_Call (incl. the inherited call_<Op> dispatch and the "
+    "inlining of called lambdas), call_Select / call_SelectMany / call_Where, the seven fusion "
+    "rules visit_X_of_Y, select_method_call_on_first, visit_Subscript / visit_Attribute and their "
+    "Of_First forms, visit_Name, the literal projections visit_Subscript_Tuple / List / Dict / "
+    "Dict_with_value (exact result, FuncADLIndexError iff a constant index >= len, every other "
+    "selector left as the subscript itself), make_Select, convolute: every index, attribute access "
+    "and assert in them is safe on every tree of every depth. 'Query shape' (spec qs) = "
+    "Select/SelectMany/Where have two arguments, the second a Lambda with a parameter; First has "
+    "an argument; dict displays have as many keys as values. Bounded (engine B): the same "
+    "totality / unparse+compile contract on ~1300 queries incl. every literal x selector "
+    "combination, 5 s per input as the bounded termination observation.",
+    "level_note": "NOT proved: termination (non-structural recursion; partial correctness only). "
+    "ASSUMED, listed in the evidence: visit_Lambda (in-place renaming through aliased lists — "
+    "outside the term view), make_args_unique, arg_name, argument_stack.lookup_name/define_name "
+    "(call_stack.py), and that generic_visit of a node of query shape keeps the shape. The NodeTransformer "
+    "dispatch model, z3 and the VC generator are trusted.",
+    "technique": "contract-based deductive verification by visitor induction: sidecar contracts on 30 functions of function_simplifier.py, safety obligation for every partial operation, discharged with z3; totality incl. termination observed by a bounded contract check",
     "p_keys": True,
-    "explanation": "Helper contracts proved; totality and WF(result) bounded.",
-    "assumptions": ["termination observed within 5 s per input only"],
+    "p_timeout": 900,
+    "explanation": "Shape-safety induction over the simplifier proved except for visit_Lambda (assumed); termination bounded.",
+    "assumptions": ["termination observed within 5 s per input only",
+                    "visit_Lambda, make_args_unique, arg_name, argument_stack: contracts assumed (trusted)",
+                    "generic_visit preserves query shape (assumed)"],
 }
 
 META["C20"] = {
